@@ -90,6 +90,9 @@ class Result:
         self.disagreements.append(dict(what=what, detail=detail))
 
     def write(self, rule: str, extra_cov=None):
+        if not self.samples:
+            # the evidence must always show what was exercised: fall back on the identities of the first cases
+            self.samples = [dict(case=str(i)) for i in list(self.nontrivial)[:6]] or [dict(case="none")]
         cov = dict(
             evaluations=self.evaluations,
             distinct_nontrivial=len(self.nontrivial),
